@@ -36,7 +36,7 @@ def source_params(src):
         if src.get(k) is not None: t[k] = src[k]
     return t
 
-FMT = ["default", "test", "state"]
+FMT = ["default", "test", "state", "fields"]
 PRODUCT = [None, "windows", "linux"]
 
 # ---- pipeline definitions (YAML); the same catalogue is emitted as Coq terms by props/c15.py ----
@@ -53,6 +53,14 @@ def _item(d):
         t.update(source_params(d["source"]))
     elif d["type"] == "value_placeholders":
         pass
+    elif d["type"] == "set_field":
+        t["fields"] = list(d["fields"])
+    elif d["type"] in ("add_field", "remove_field"):
+        t["field"] = list(d["field"]) if isinstance(d["field"], list) else d["field"]
+    elif d["type"] == "set_custom_attribute":
+        t["attribute"], t["value"] = d["attribute"], d["value"]
+    elif d["type"] == "change_logsource":
+        t["product"] = PRODUCT[d["product"]]
     c = d.get("cond")
     if c is not None:
         if c[0] == "product":
@@ -102,10 +110,31 @@ TEMPLATE_ATTRS = ["eq_expression", "re_expression", "cidr_expression", "startswi
                   "case_sensitive_endswith_expression", "contains_expression",
                   "case_sensitive_contains_expression"]
 
+def _finalize_query_fields(self, rule, query, index, state):
+    """output format of the harness classes that emits what a backend with a field-list / table clause emits: the
+    processed rule's field list, its custom attributes and its log source"""
+    return (self.finalize_query_default(rule, query, index, state) + " | fields=" + ",".join(rule.fields)
+            + " attrs=" + ",".join(f"{k}:{v}" for k, v in rule.custom_attributes.items())
+            + " product=" + str(rule.logsource.product))
+
+def _finalize_output_fields(self, queries):
+    return self.finalize_output_default(queries)
+
+def item_configs(pipes):
+    """public configuration of every transformation object (must never change)"""
+    out = []
+    for p in pipes:
+        for it in list(p.items) + list(p.postprocessing_items):
+            out.append({k: v for k, v in vars(it.transformation).items()
+                        if not k.startswith("_") and k not in ("processing_item",)})
+    return out
+
 def make_class(k, cdef):
     """a new backend class object per case (class attributes are part of the state under test)"""
     attrs = {
         "convert_or_as_in": False, "convert_and_as_in": False,
+        "formats": dict(TextQueryTestBackend.formats, fields="query + field list"),
+        "finalize_query_fields": _finalize_query_fields, "finalize_output_fields": _finalize_output_fields,
         "backend_processing_pipeline": make_pipeline({"items": cdef["bk"], "vars": cdef.get("bkvars", {})}),
         "output_format_processing_pipeline": defaultdict(
             ProcessingPipeline, **{FMT[int(f)]: make_pipeline({"items": cdef["fmt"].get(f, []), "vars": cdef.get("fmtvars", {}).get(f, {})})
@@ -180,6 +209,8 @@ class World:
             pipes.append(c.backend_processing_pipeline)
             pipes += list(c.output_format_processing_pipeline.values())
         self.src_vars = [(p, copy.deepcopy(p.vars)) for p in pipes]
+        self.pipes = pipes
+        self.cfg0 = _plain(item_configs(pipes))     # a string: nothing is shared with the objects
 
     def load(self, r):
         self.n += 1
@@ -189,7 +220,9 @@ class World:
         ci = _parse_condition_string.cache_info()
         vc = []
         # vars of the pipeline definitions' own objects must never change (only the merged copy is updated)
-        src_vars_ok = all(_plain(p.vars) == _plain(v) for p, v in self.src_vars)
+        src_vars_ok = (all(_plain(p.vars) == _plain(v) for p, v in self.src_vars)
+                       # ... nor the configuration of any transformation object (set_field list, mappings, values ...)
+                       and _plain(item_configs(self.pipes)) == self.cfg0)
         for p in self.users:       # file_placeholders objects of the user pipeline objects, in order
             for it in p.items:
                 if isinstance(it.transformation, ExternalSourceBaseTransformation):
